@@ -139,6 +139,7 @@ class Env(object):
         self.sol_dig = {}    # id -> expected digest (absent once the owner scribbled on it)
         self.scratch = None
         self.files = []
+        self.shared_lists = {}
         self.obj_eos = {}    # solver object id -> EOS object id (an EOS is released with its last solver)
         self.obj_ic = {}
 
@@ -151,6 +152,15 @@ def _mk_eos(spec):
 def _do_new(env, op):
     cls = world.CENSUS[op["cls"]]
     kw = dec(op.get("kw", {"d": []}))
+    # a caller script reuses its list-valued parameter objects: equal list values are the same list object for every
+    # constructor of the run (a solver that sorts, extends or rescales such a list in place then shows up in H1)
+    for k in sorted(kw):
+        if isinstance(kw[k], list):
+            key = (k, repr(kw[k]))
+            if key in env.shared_lists:
+                kw[k] = env.shared_lists[key]
+            else:
+                env.shared_lists[key] = kw[k]
     args = []
     if "eos" in op:
         es = op["eos"]
